@@ -658,6 +658,12 @@ func (d *Def) Evaluation(
 		p.Fatal(ctx, err)
 	}
 
+	// no method name could be read (the input ends behind `def` or `def x.`):
+	// there is nothing to define
+	if method == "" {
+		return nil
+	}
+
 	ctx.SetMethod(method)
 	d.prepareParserSetting(p, t)
 
